@@ -1244,11 +1244,152 @@ def _filled_only_from_pops(loop, name, shrink):
     return True
 
 
+def _measure_progress(loop):
+    """ranking by a sum of bounded measures read off the conjuncts of the loop test, whatever their mix:
+         c < B, c <= B, B > c, c != B      B - c        progress: c += k / c = c + k (k a positive constant)
+         len(L) < B ...                    B - len(L)   progress: L.append / add / insert (one element)
+         not flag / flag                   1 or 0       progress: flag = True / flag = False
+         L / len(L) > 0 / len(L)           len(L)       progress: L.pop / remove / del L[i]
+       Every path through the body (up to its `continue`) makes progress on one of them, and nothing in the loop ever
+       moves a measure the other way or touches a bound: the sum decreases at every iteration and is bounded below while
+       the test holds.  Conjuncts that are not understood only end the loop sooner."""
+    test = loop.test
+    atoms = list(test.values) if isinstance(test, ast.BoolOp) and isinstance(test.op, ast.And) else [test]
+    stored = {n.id for n in ast.walk(ast.Module(body=loop.body, type_ignores=[])) if isinstance(n, ast.Name)
+              and isinstance(n.ctx, (ast.Store, ast.Del))}
+
+    def invariant(e):
+        if any(isinstance(n, ast.Name) and n.id in stored for n in ast.walk(e)):
+            return False
+        return not any(isinstance(n, ast.Call) and not (isinstance(n.func, ast.Name) and n.func.id in ("len", "int", "abs"))
+                       for n in ast.walk(e))
+
+    def len_of(e):
+        if isinstance(e, ast.Call) and isinstance(e.func, ast.Name) and e.func.id == "len" and len(e.args) == 1 \
+                and isinstance(e.args[0], ast.Name):
+            return e.args[0].id
+        return None
+    up, grow, flags, shrink = set(), set(), {}, set()
+    for a in atoms:
+        if isinstance(a, ast.Compare) and len(a.ops) == 1:
+            l, op, r = a.left, a.ops[0], a.comparators[0]
+            if isinstance(op, (ast.Gt, ast.GtE)):
+                l, r, op = r, l, (ast.Lt() if isinstance(op, ast.Gt) else ast.LtE())
+            if isinstance(op, (ast.Lt, ast.LtE)):
+                if isinstance(l, ast.Name) and invariant(r):
+                    up.add(l.id)
+                elif len_of(l) and invariant(r):
+                    grow.add(len_of(l))
+                elif len_of(r) and isinstance(l, ast.Constant) and isinstance(l.value, int) and l.value >= 0:
+                    shrink.add(len_of(r))               # 0 < len(L)
+        elif isinstance(a, ast.UnaryOp) and isinstance(a.op, ast.Not) and isinstance(a.operand, ast.Name):
+            flags[a.operand.id] = True                  # the loop ends once the flag is True
+        elif isinstance(a, ast.Name):
+            flags[a.id] = False                          # ends once falsy: a flag set to False, or a list emptied
+            shrink.add(a.id)
+        elif len_of(a):
+            shrink.add(len_of(a))
+    if not (up or grow or flags or shrink):
+        return None
+
+    def progress(st):
+        """does this simple statement move a measure the right way?"""
+        if isinstance(st, ast.AugAssign) and isinstance(st.target, ast.Name) and st.target.id in up \
+                and isinstance(st.op, ast.Add) and isinstance(pat.const_value(st.value), (int, float)) and pat.const_value(st.value) > 0:
+            return True
+        if isinstance(st, ast.Assign) and len(st.targets) == 1 and isinstance(st.targets[0], ast.Name):
+            t, v = st.targets[0].id, st.value
+            if t in up and isinstance(v, ast.BinOp) and isinstance(v.op, ast.Add) and (
+                    (pat.is_name(v.left, t) and isinstance(pat.const_value(v.right), (int, float)) and pat.const_value(v.right) > 0)
+                    or (pat.is_name(v.right, t) and isinstance(pat.const_value(v.left), (int, float)) and pat.const_value(v.left) > 0)):
+                return True
+            if t in flags and isinstance(v, ast.Constant) and v.value is flags[t]:
+                return True
+        if isinstance(st, ast.Expr) and isinstance(st.value, ast.Call) and isinstance(st.value.func, ast.Attribute) \
+                and isinstance(st.value.func.value, ast.Name):
+            recv, m = st.value.func.value.id, st.value.func.attr
+            if recv in grow and m in ("append", "add", "insert"):
+                return True
+            if recv in shrink and m in ("pop", "remove"):
+                return True
+        if isinstance(st, ast.Assign) and isinstance(st.value, ast.Call) and isinstance(st.value.func, ast.Attribute) \
+                and isinstance(st.value.func.value, ast.Name) and st.value.func.value.id in shrink and st.value.func.attr == "pop":
+            return True
+        if isinstance(st, ast.Delete) and any(isinstance(t, ast.Subscript) and isinstance(t.value, ast.Name)
+                                              and t.value.id in shrink and not isinstance(t.slice, ast.Slice) for t in st.targets):
+            return True
+        return False
+
+    # nothing moves a measure the other way
+    for n in ast.walk(ast.Module(body=loop.body, type_ignores=[])):
+        if isinstance(n, (ast.Assign, ast.AugAssign, ast.AnnAssign, ast.Delete, ast.For, ast.NamedExpr, ast.With, ast.comprehension)):
+            tgts = []
+            if isinstance(n, ast.Assign):
+                tgts = n.targets
+            elif isinstance(n, (ast.AugAssign, ast.AnnAssign, ast.NamedExpr, ast.For, ast.comprehension)):
+                tgts = [n.target]
+            elif isinstance(n, ast.Delete):
+                tgts = n.targets
+            for t in tgts:
+                for x in ast.walk(t):
+                    if isinstance(x, ast.Name) and isinstance(x.ctx, (ast.Store, ast.Del)) and x.id in (up | grow | set(flags) | shrink):
+                        if not (isinstance(n, (ast.Assign, ast.AugAssign, ast.Delete)) and progress(n)):
+                            return None
+        if isinstance(n, ast.Call) and isinstance(n.func, ast.Attribute) and isinstance(n.func.value, ast.Name):
+            recv, m = n.func.value.id, n.func.attr
+            if recv in grow and m in ("pop", "remove", "clear", "discard", "extend", "update", "sort", "reverse") and m not in ("sort", "reverse"):
+                return None
+            if recv in shrink and m in GROW + ("clear",) and m != "clear":
+                return None
+        # a measured collection handed to a callee may be changed there
+        if isinstance(n, ast.Call):
+            for a in list(n.args) + [k.value for k in n.keywords]:
+                if isinstance(a, ast.Name) and a.id in (grow | shrink) and not (
+                        isinstance(n.func, ast.Name) and n.func.id in ("len", "tuple", "list", "sorted", "enumerate", "zip", "iter", "any", "all", "min", "max", "sum")):
+                    return None
+
+    def all_paths(body):
+        """True when every path that reaches the end of `body` or a `continue` in it has made progress"""
+        for st in body:
+            if progress(st):
+                return True
+            if isinstance(st, (ast.Break, ast.Return, ast.Raise)):
+                return True
+            if isinstance(st, ast.Continue):
+                return False
+            if isinstance(st, ast.If):
+                if st.orelse and all_paths(st.body) and all_paths(st.orelse):
+                    return True
+                # a branch that may fall through without progress must not `continue`
+                if _has_continue(st.body) and not all_paths(st.body):
+                    return False
+                if st.orelse and _has_continue(st.orelse) and not all_paths(st.orelse):
+                    return False
+            elif isinstance(st, (ast.Try, ast.With, ast.For, ast.While)):
+                inner = [x for x in ast.walk(st) if isinstance(x, ast.Continue)]
+                if isinstance(st, (ast.Try, ast.With)) and inner:
+                    return False
+        return False
+    if all_paths(loop.body):
+        what = sorted(up) + [f"len({x})" for x in sorted(grow)] + sorted(flags) + [f"len({x})" for x in sorted(shrink - set(flags))]
+        return "sum of measures", f"every path through the body moves one of {what} towards the end of the loop and nothing moves them back"
+    return None
+
+
+def _has_continue(body):
+    return any(isinstance(x, ast.Continue) for st in body for x in ast.walk(st)
+               if not isinstance(st, (ast.For, ast.While)))
+
+
 def _loop_witness_sizes(fn, loop, ctx=None):
-    """the catalogue of ranking idioms first; when none applies, the size-bound analysis (verifkit/sizes.py)"""
+    """the catalogue of ranking idioms first; when none applies, the sum of the measures read off the loop test, then
+    the size-bound analysis (verifkit/sizes.py)"""
     kind, txt = loop_witness(fn, loop, ctx)
     if kind:
         return kind, txt
+    mp = _measure_progress(loop)
+    if mp:
+        return mp
     from verifkit import sizes
     ok, why = sizes.while_progress(loop)
     if ok:
